@@ -100,6 +100,12 @@ type sink struct {
 func (s *sink) Write(p []byte) (int, error) {
 	s.calls++
 	if s.failAt > 0 && (s.calls == s.failAt || (!s.once && s.calls > s.failAt)) {
+		if !s.failed {
+			// the first failure takes its time: with a concurrent Writer the call that follows (usually
+			// Close) has then certainly begun while the failing write is still in flight, which is the
+			// interleaving in which a failure can get lost
+			time.Sleep(30 * time.Millisecond)
+		}
 		s.failed = true
 		return 0, injectedFault(s.failAt, s.once, false)
 	}
@@ -662,6 +668,7 @@ func runRS(c *rsCase) string {
 				res = append(res, fmt.Sprintf("%d:%s:%s", m, errClass(err), hx(p[:m])))
 				delivered = append(delivered, p[:m]...)
 				final = errClass(err)
+				scribble(p) // io.Reader: the Reader must not retain p; the caller does what it likes with it
 			case strings.HasPrefix(op, "RA:") || op == "RM":
 				// read until an error or the end of the stream: RA:<n> fixed buffer size, RM mixed sizes
 				fixed := 0
@@ -687,6 +694,7 @@ func runRS(c *rsCase) string {
 					}
 					cnt++
 					got = append(got, p[:m]...)
+					scribble(p) // the caller's buffer is the caller's again once Read has returned
 					if err != nil {
 						e = err
 						break
@@ -895,4 +903,12 @@ func runCR(c *crCase) string {
 		}
 		return obs + " oracle_rt=" + rt
 	})
+}
+
+// scribble overwrites a buffer that was handed to Read: whatever the Reader still reads from it later
+// (a dictionary window aliased to the caller's memory, say) shows up as wrong content.
+func scribble(p []byte) {
+	for i := range p {
+		p[i] = 0xA5
+	}
 }
